@@ -347,7 +347,7 @@ def run_scenario(name, log, outdir):
         return violated, tr
     if name == "c20_lock_order":
         st = os.path.join(outdir, name + ".strace")
-        subprocess.run(["strace", "-f", "-y", "-e", "trace=openat,flock", "-o", st, b, "c20_fresh_and_reopen", d],
+        subprocess.run(["strace", "-f", "-y", "-e", "trace=openat,flock,unlink,unlinkat,rename,renameat,renameat2", "-o", st, b, "c20_fresh_and_reopen", d],
                        stdout=subprocess.PIPE, stderr=subprocess.STDOUT, text=True)
         if not os.path.exists(st):
             return None, tr
@@ -363,7 +363,14 @@ def run_scenario(name, log, outdir):
                     locked = False
                 ev.append("flock %s %s = %s" % (os.path.basename(m.group(1)), m.group(2), m.group(3)))
                 continue
+            m = re.search(r"(unlink|unlinkat|rename|renameat|renameat2)\(([^)]*\.lock[^)]*)\)", ln)
+            if m and dbdir in m.group(2) and nlocks > 0:   # (the driver itself clears the directory before the first open)
+                ev.append("%s %s   <-- the lock file itself" % (m.group(1), m.group(2)[:100]))
+                problems.append("the lock file is removed / renamed (%s): an opener holding the old inode and one creating a new file can both lock" % m.group(1))
+                continue
             m = re.search(r"openat\([^,]*, \"([^\"]*)\", ([A-Z_|]+)", ln)
+            if m and os.path.basename(m.group(1)) == ".lock" and "O_TRUNC" in m.group(2):
+                problems.append("the lock file is opened with O_TRUNC")
             if m and os.path.dirname(os.path.abspath(m.group(1))) == dbdir and os.path.basename(m.group(1)) != ".lock":
                 ev.append("openat %s %s%s" % (os.path.basename(m.group(1)), m.group(2), "" if locked else "   <-- lock not held"))
                 if not locked:
